@@ -169,6 +169,9 @@ type env struct {
 	retries int
 	warmed  map[string]bool
 	seq     int
+	// sqlSuffix is appended to the read-back queries of verifyNode (" limit n" when a node holds more
+	// groups than the default limit of a group-by query)
+	sqlSuffix string
 }
 
 var caseSeq int
@@ -341,7 +344,7 @@ func (e *env) verifyNode(l *layoutSpec, ni int) string {
 		}
 		for _, name := range sortedKeys(keySets) {
 			q := &querySpec{Metric: mi, All: true, StartS: -60, EndS: 420, GroupBy: keySets[name]}
-			sql := q.sql(d)
+			sql := q.sql(d) + e.sqlSuffix
 			rs, err := e.xc.Query("root:1", l.db, sql)
 			if err != nil && !strings.Contains(err.Error(), "not found") {
 				return fmt.Sprintf("node %d: %s: %v", ni, sql, err)
@@ -496,6 +499,7 @@ const executions = 3
 type caseBudget struct {
 	layouts, queries int
 	midSample        int // permutations tried through the intermediate node when there are 4 leaves (0 = all)
+	scheds           int // drawn send-interleaved schedules per number of leaves (run at the root; the first one also at the intermediate node)
 }
 
 func runCase(t *rapid.T, group string, b caseBudget) {
@@ -518,6 +522,7 @@ func runCase(t *rapid.T, group string, b caseBudget) {
 	}
 	midPick := rapid.Permutation(perms(4)[1:]).Draw(t, "midPerms")
 	nodePick := rapid.IntRange(0, 23).Draw(t, "nodeClusterOrder")
+	schedPicks := genSchedPick(t, b.scheds)
 
 	dir, err := os.MkdirTemp("", "c12-")
 	if err != nil {
@@ -605,13 +610,13 @@ func runCase(t *rapid.T, group string, b caseBudget) {
 			}
 		}
 		for li, l := range layouts[1:] {
-			e.runLayout(q, sql, m, ref, li+1, l, qClasses, midPick, nodePick, b, dataJSON)
+			e.runLayout(q, sql, m, ref, li+1, l, qClasses, midPick, nodePick, schedPicks, b, dataJSON)
 		}
 	}
 }
 
 func (e *env) runLayout(q *querySpec, sql string, m *modelOut, ref node.Result, li int, l *layoutSpec,
-	qClasses []string, midPick [][]int, nodePick int, b caseBudget, dataJSON string) {
+	qClasses []string, midPick [][]int, nodePick int, schedPicks schedPick, b caseBudget, dataJSON string) {
 	t := e.t
 	nLeaves := len(l.Nodes)
 	fail := func(topology string, order []string, msg string, obs []respObs) {
@@ -752,6 +757,13 @@ func (e *env) runLayout(q *querySpec, sql string, m *modelOut, ref node.Result, 
 		ambDiffers = 0
 	}
 
+	// (2b) responses handed to the root while it is still sending the requests of the plan: every node
+	// answers at once, and the drawn schedules
+	if nLeaves >= 2 {
+		scheds := append([]*sendSchedule{immediateSchedule(nLeaves)}, schedPicks[nLeaves]...)
+		e.runScheduled(q, sql, m, ref, l, scheds, "root:1", nil, kinds, nData, classes, dataJSON, fail)
+	}
+
 	// (3) group by: root -> one computing intermediate node -> leaves (what BuildPhysicalPlan yields for
 	// one candidate broker); the state manager only builds a compute plan when >= 2 storage nodes have shards
 	if len(q.GroupBy) == 0 || nLeaves < 2 {
@@ -813,6 +825,13 @@ func (e *env) runLayout(q *querySpec, sql string, m *modelOut, ref node.Result, 
 	if ambDiffers > 0 {
 		ev.Class(e.group, "info:order-ambiguous-first/last-cell-differs-from-reference", ambDiffers)
 	}
+
+	// (3b) the same at the intermediate node, which sends the leaf requests with the same task context code
+	mscheds := []*sendSchedule{immediateSchedule(nLeaves)}
+	if len(schedPicks[nLeaves]) > 0 {
+		mscheds = append(mscheds, schedPicks[nLeaves][0])
+	}
+	e.runScheduled(q, sql, m, ref, l, mscheds, "mid0:1", []string{"mid0:1"}, kinds, nData, classes, dataJSON, fail)
 }
 
 // repeat executes the query and compares with the reference; a disagreement is returned only if
@@ -843,6 +862,6 @@ func dedup(in []string) []string {
 // TestLayoutIndependence is the property: every layout / delivery order gives the reference answer.
 func TestLayoutIndependence(t *testing.T) {
 	// one budget for both tiers (a replay must make the same draws); the thorough tier runs more cases
-	b := caseBudget{layouts: 4, queries: 3, midSample: 0}
+	b := caseBudget{layouts: 4, queries: 3, midSample: 0, scheds: 2}
 	rapid.Check(t, func(t *rapid.T) { runCase(t, "TestLayoutIndependence", b) })
 }
